@@ -313,8 +313,59 @@ def run(ctx, rep):
     steps = ["count_used_blobs", "check", "decide_packs", "decide_repack", "check_existing_packs", "filter_index_files"]
     for a, b in zip(steps, steps[1:]):
         must_precede(ctx, rep, "C02.d", f"plan-order/{a}-{b}", FP, call_pred(rf"prune::PrunePlan::{a}$"), call_pred(rf"prune::PrunePlan::{b}$"), what_a=a, what_b=b)
+    index_rewrite_rule(ctx, rep, "C02.d")
     # ---- C02.e -------------------------------------------------------------------------------------
     from rules import C03
     from rules.C10 import borrow
     n = borrow(rep, ctx, C03, lambda o: o.rule == "R-ORDER" and re.search(r"/R-ORDER/(13|13b|14)/", o.key), "C02.e")
     rep.floor("C02.e", "borrowed obligations", n, 6)
+
+
+def index_rewrite_rule(ctx, rep, R):
+    """which index files prune rewrites (PrunePlan::filter_index_files): an index file must be processed whenever one of
+    its packs gets a decision that changes its index entry. Exact, by concrete interpretation of the predicate closure
+    over PackToDo x instant_delete: only Keep (and KeepMarked without instant delete) leave an entry as it is; Recover,
+    KeepMarkedAndCorrect, Repack, MarkDelete, Delete change it. (Omitting Recover makes prune answer 'nothing to do'
+    while packs that a concurrent backup re-used stay marked for deletion.)"""
+    import findom
+    prog = ctx.prog
+    F = prog.find1(r"^rustic_core::commands::prune::PrunePlan::filter_index_files$")
+    fam = [F] + prog.closures_of(F)
+    variants = [v for v in prog.variants("commands::prune::PackToDo")]
+    WANT = {v: (True, True) for v in variants}
+    WANT["Keep"] = (False, False)
+    WANT["KeepMarked"] = (False, True)
+    found = []
+    for c in fam:
+        if not c.is_closure() or c.locals[0] != "bool" or c.argc < 2 or "PrunePack" not in c.locals[2]:
+            continue
+        table = {}
+        exact = True
+        for var in variants:
+            row = []
+            for inst in (False, True):
+                it = findom.Interp(prog, c, {1: ("tuple", [inst]), 2: {"to_do": findom.Enum("rustic_core::commands::prune::PackToDo", var)}})
+                it.run()
+                v = it.return_value()
+                if not isinstance(v, bool):
+                    exact = False
+                row.append(v)
+            table[var] = tuple(row)
+        # how is the predicate consumed?
+        cons = None
+        for g in fam:
+            for bb, t in g.calls():
+                if "callee" in t and re.search(r"Iterator::(any|all)$", callee_decl(t)) and any(c.path in repr(flow.expr_of(g, a, bb)) for a in t["args"][1:]):
+                    cons = callee_decl(t).rsplit("::", 1)[-1]
+        found.append((c, table, exact, cons))
+    rep.require(R, "filter_index_files/predicate", len(found) >= 1, where=F.loc(), what="filter_index_files decides per pack whether the index file has to be rewritten")
+    for (c, table, exact, cons) in found:
+        if not exact:
+            rep.check(R, "filter_index_files/rewrite-table", False, where=c.loc(), what=f"the per-pack predicate could not be evaluated exactly over PackToDo x instant_delete: {table}")
+            continue
+        neg = {k: tuple(not x for x in v) for k, v in WANT.items()}
+        ok = (table == WANT and cons in ("any", None)) or (table == neg and cons == "all")
+        diff = {k: (table[k], WANT[k] if cons != "all" else neg[k]) for k in table if table[k] != (WANT[k] if cons != "all" else neg[k])}
+        rep.check(R, "filter_index_files/rewrite-table", ok, where=c.loc(),
+                  what="an index file is rewritten iff one of its packs gets a decision other than Keep (or KeepMarked without instant delete)" if ok else
+                       f"the decisions that force an index file to be rewritten differ from the executor's needs (predicate vs required, as (no-instant, instant)): {diff}")
